@@ -40,7 +40,7 @@ func c02Token(r *Rng, k Kind, pay *Payloads, class int) string {
 	case 2: // float
 		return pay.Float()
 	case 3: // key=value
-		return r.Pick([]string{pay.KV(), "K" + pay.Int() + "=a=b", "K" + pay.Int() + "=", "=v" + pay.Int()})
+		return r.Pick([]string{pay.KV(), "K" + pay.Int() + "=a=b", "K" + pay.Int() + "=", "=v" + pay.Int(), "dup=" + pay.Int(), "dup=" + pay.Str(), "DUP=x" + pay.Int()})
 	case 4: // plain word
 		return pay.Pos()
 	case 5: // known flag
@@ -248,7 +248,7 @@ type c02Case struct {
 	cell          string
 }
 
-var c02MinMax = [][2]int{{1, 1}, {1, 2}, {1, 3}, {1, 4}, {2, 2}, {2, 3}, {2, 4}, {3, 3}, {3, 4}, {4, 4}, {1, 9}, {2, 50}}
+var c02MinMax = [][2]int{{1, 1}, {1, 2}, {1, 3}, {1, 4}, {2, 2}, {2, 3}, {2, 4}, {3, 3}, {3, 4}, {4, 4}, {1, 9}, {2, 1 << 62}} // the last one: max used as "unlimited"
 
 // grid size: kind(4) x minmax(12) x attached(2) x nPre(0..3 well-formed before the probe) x probe class(14) x position(2)
 const c02Grid = 4 * 12 * 2 * 4 * c02NClasses * 2 // kind x (min,max) x attached x pre x probe x position
